@@ -143,14 +143,19 @@ static void compute_outputs(Outs &o, const Input &in, const Input &small, const 
     if (!bit_only) { double p1 = backend::spectral_radius<true>(a, 8); Out q; q.cls = INFO; q.vals.assign(1, p1); o["power_radius"] = q; }
     // --- aggregates
     { coarsening::plain_aggregates::params ap; coarsening::plain_aggregates ag(a, ap); vf::Digest d; uint64_t c = ag.count; d.pod(c); d.vec(ag.id); d.vec(ag.strong_connection); o["plain_aggregates"] = bit(d.h); }
-    // --- hierarchies
-    hierarchy_outputs(o, in, "aggregation", "aggregation", ptree(), true);
-    hierarchy_outputs(o, in, "smoothed_aggregation", "smoothed_aggregation", ptree(), true);
-    { ptree p; p.put("coarsening.estimate_spectral_radius", true); p.put("coarsening.power_iters", 0); hierarchy_outputs(o, in, "smoothed_aggregation", "smoothed_aggregation_gershgorin", p, true); }
-    hierarchy_outputs(o, in, "ruge_stuben", "ruge_stuben", ptree(), true);
+    // --- hierarchies.  An exception of a bitwise-class construction is itself an output that must not depend on the thread count; for the
+    // rounding class (energy minimisation: a last-bit change of omega can decide whether skyline_lu meets an exactly zero pivot) it is recorded only.
+    auto hier = [&](const std::string &coars, const std::string &name, const ptree &p, bool bitclass) {
+        try { hierarchy_outputs(o, in, coars, name, p, bitclass); }
+        catch (const std::exception &e) { for (auto it = o.begin(); it != o.end();) { if (it->first.compare(0, 6 + name.size(), "hier." + name + ".") == 0) it = o.erase(it); else ++it; }
+            Out q = bit(vf::hash_str(e.what())); q.spgemm = true; if (!bitclass) { q.cls = INFO; vf::obs_sum("rounding_class_hierarchy_exceptions"); } o["hier." + name + ".exception"] = q; } };
+    hier("aggregation", "aggregation", ptree(), true);
+    hier("smoothed_aggregation", "smoothed_aggregation", ptree(), true);
+    { ptree p; p.put("coarsening.estimate_spectral_radius", true); p.put("coarsening.power_iters", 0); hier("smoothed_aggregation", "smoothed_aggregation_gershgorin", p, true); }
+    hier("ruge_stuben", "ruge_stuben", ptree(), true);
     if (in.block > 1) {     // pointwise (block) aggregates
-        ptree p; p.put("coarsening.aggr.block_size", in.block); hierarchy_outputs(o, in, "aggregation", "aggregation_block", p, true); hierarchy_outputs(o, in, "smoothed_aggregation", "smoothed_aggregation_block", p, true); }
-    if (!bit_only) hierarchy_outputs(o, in, "smoothed_aggr_emin", "smoothed_aggr_emin", ptree(), false);
+        ptree p; p.put("coarsening.aggr.block_size", in.block); hier("aggregation", "aggregation_block", p, true); hier("smoothed_aggregation", "smoothed_aggregation_block", p, true); }
+    if (!bit_only) hier("smoothed_aggr_emin", "smoothed_aggr_emin", ptree(), false);
     // --- relaxation sweeps
     for (const char *rn : RELAX) {
         ptree p; p.put("type", rn); runtime::relaxation::wrapper<B> R(a, p, B::params());
@@ -211,6 +216,12 @@ static void compare(Cmp &k, const std::string &name, int ta, const Out &a, int t
     ++k.c.checks;
     if (a.cls == INFO) return;
     if (name.compare(0, 6, "solve.") == 0) {
+        // cells whose setup involves an unordered critical-section accumulation (energy minimisation) or a thread-seeded random vector (power
+        // iteration, IDR(s) shadow space) are not continuous functions of those: a last-bit change of omega decides whether skyline_lu meets an
+        // exactly zero pivot, a different random start vector changes the spectral-radius estimate of an 8-step power iteration.  For them a
+        // differing outcome (exception / divergence at one thread count) is recorded, and only "all converge => solutions agree" is demanded.
+        bool discontinuous = name.find("smoothed_aggr_emin") != std::string::npos || name.find("[power]") != std::string::npos || name.find("[sr-power]") != std::string::npos || name.find("+idrs") != std::string::npos;
+        if (discontinuous && (a.tag != b.tag || a.converged != b.converged)) { vf::obs_sum("rounding_class_solve_pairs_with_differing_outcome"); return; }
         if (!a.tag.empty() || !b.tag.empty()) { if (a.tag != b.tag) k.fail(name + ":exception-thread-dependent", "solver construction / solve throws at one thread count only: " + a.tag + " vs " + b.tag, d); return; }
         // iteration counts legitimately differ by a few between thread counts (rounding class): a run that stops at maxiter within 100 tol of
         // the target while the other one just made it is not a refutation; a run that is nowhere near convergence is
@@ -249,7 +260,7 @@ static void compare_all(Cmp &k, const std::vector<int> &threads, const std::vect
     // and the two references against each other
     int refA = -1, refB = -1;
     for (size_t i = 0; i < threads.size(); ++i) { if (group_of(threads[i]) == 0 && refA < 0) refA = (int)i; if (group_of(threads[i]) == 1 && refB < 0) refB = (int)i; }
-    auto pair = [&](int i, int j, bool formdep_only = false) { for (auto &kv : res[i]) { if (formdep_only && !kv.second.formdep) continue; auto it = res[j].find(kv.first); if (it == res[j].end()) { k.fail(kv.first + ":missing", "output missing at one thread count", J().n("threads", threads[j])); continue; } compare(k, kv.first, threads[i], kv.second, threads[j], it->second, in); } };
+    auto pair = [&](int i, int j, bool formdep_only = false) { for (auto &kv : res[i]) { if (formdep_only && !kv.second.formdep) continue; auto it = res[j].find(kv.first); if (it == res[j].end()) { if (kv.second.cls == BIT && kv.second.spgemm && group_of(threads[i]) != group_of(threads[j]) && kv.first.find(".L1.") == std::string::npos && kv.first.find(".L2.") == std::string::npos) k.fail("hierarchy:saad-vs-rmerge-rounding", "deeper level exists on one side of the SpGEMM switch only (different discrete coarsening decision after a last-bit change)", J().s("output", kv.first).n("threads_a", threads[i]).n("threads_b", threads[j])); else if (kv.second.cls == BIT) k.fail(kv.first.substr(0, kv.first.find(".L")) + ":missing", "bitwise-class output exists at one thread count only (construction threw at the other)", J().s("output", kv.first).n("threads_a", threads[i]).n("threads_b", threads[j])); continue; } compare(k, kv.first, threads[i], kv.second, threads[j], it->second, in); } };
     for (size_t i = 0; i < threads.size(); ++i) { int ref = group_of(threads[i]) == 0 ? refA : refB; if ((int)i != ref) pair(ref, (int)i); }
     if (refA >= 0 && refB >= 0) pair(refA, refB);
     // ILU applications: bitwise inside the level-scheduled form (>= 4 threads) of each group as well
